@@ -28,7 +28,8 @@ TRUSTED = [
     "shell/execution.rs (run_string, run_dash_c_command, run_script, source_script), builtins eval.rs/dot.rs; the `cached` crate's LruCache",
     "oracles (Section variables): the parser (verdict class per text, compositionality after a complete chunk), the command executor "
     "(positions additive in the frame's line base), the EXIT path; purity of the memoised functions is tested (fresh vs long-lived process), not proved",
-    "completeness decision for all prefixes: explored against the generator's command boundaries and `bash -n`, not proved",
+    "completeness decision: proved on the lexical fragment for the scanner model Modes/Lex.v (tied to the real parser by exhaustive "
+    "short texts); beyond the fragment explored against the generator's command boundaries and `bash -n`, not proved",
     "/usr/bin/bash 5.2.15 as second opinion for what delivery modes must agree on",
 ]
 ASSUMPTIONS = [
@@ -931,8 +932,12 @@ def finish(ctx, res, progs):
                 "the real input backend and by the model, and every line-prefix is classified. Purity: all 3-permutations of "
                 "(text, options) items per parse entry point, every text under every order of option settings, sequences with more than "
                 "64 distinct keys between repeats, random sequences. LRU: all key sequences up to length 5 (7 thorough) over 3-4 keys "
-                "for capacities 1-3 plus random ones up to capacity 64. non-trivial = a program whose run printed at least one $LINENO "
-                "probe (distinct by text), or a (api, text) pair whose parse result depends on the options (distinct by pair)",
+                "for capacities 1-3 plus random ones up to capacity 64. Lexical fragment: every text up to length 4 (6 thorough) over "
+                "{a, b, blank, newline, ', \", backslash, #} plus random longer ones (real parser verdict vs scanner model; real front-end "
+                "chunks vs model chunks). Toy front-end programs: print/continuation/here-document/if/and-or/nested eval/trap/exit segments in "
+                "all five modes, code vs model vs specification vs bash. non-trivial = a program whose run printed at least one $LINENO "
+                "probe (distinct by text), a (api, text) pair whose parse result depends on the options (distinct by pair), a toy program whose "
+                "stdin run printed a probe, or a fragment text the real front-end cut into more than one chunk",
         "samples": [{"program": prog_text(p[0], p[2])} for p in progs[6:9]] + [{"program": prog_text(progs[0][0])}],
         "distribution": {"constructs": kinds, "parser_verdicts": res["dist_class"], "prefix_decisions": res["dist_prefix"],
                          "modes": res["dist_modes"], "purity": res.get("dist_purity"), "lru": res.get("dist_lru"), "lexical_fragment": res.get("dist_lex")},
